@@ -24,6 +24,7 @@ import (
 //	sr <prim> [arg]         serialization.ReadX: "<val> rem=<n>" or "err:<class> rem=<n>"
 //	rt <prim> <val> <suffix>   property op: both encoders agree, both decoders return the value and consume exactly the
 //	                        encoding when followed by <suffix>, every examined truncation is eof / error: "<hex> ok"
+//	sbig <n>:<fill> ...     large var-bytes fields read back-to-back (streaming), all values compared after the last read
 //	check                   the same for the concatenation of everything written in this case: "ok n=<fields> len=<L>"
 //	safe <add|sub|mul> x y  "<result> <overflow>"
 //	varsize <v>             serialization.GetVarUintSize
@@ -380,12 +381,49 @@ func (f *codecFam) Exec(r *hx.Run, op []string) string {
 			arg = op[2]
 		}
 		before := f.src.Pos()
-		v, eof, ok := srcRead(f.src, op[1], arg)
+		size := f.src.Size()
+		inBounds := before <= size
+		// independent oracle: the declared length of this read, when it can be determined from the bytes themselves
+		declared, known := uint64(0), false
+		remaining := uint64(0)
+		if inBounds {
+			remaining = size - before
+			switch op[1] {
+			case "bytes":
+				declared, known = pu(arg, 64), true
+			case "varbytes", "string":
+				if l, hdr, ok := varuintAt(f.src.Bytes(), int(before)); ok {
+					declared, known = l, true
+					remaining -= uint64(hdr)
+				}
+			}
+		}
+		var v string
+		var eof, ok bool
+		pm := ""
+		func() {
+			defer func() {
+				if e := recover(); e != nil {
+					pm = fmt.Sprint(e)
+				}
+			}()
+			v, eof, ok = srcRead(f.src, op[1], arg)
+		}()
+		if pm != "" {
+			if inBounds {
+				r.Viol("C01:read-panic:"+op[1], fmt.Sprintf("Next %s at offset %d of the %d-byte source %s panics: %s", op[1], before, size, trunc(hx.Hex(f.src.Bytes()), 200), pm))
+			}
+			return "panic"
+		}
 		if !ok {
 			return "bad-op"
 		}
+		if known && declared > remaining && !eof {
+			r.Viol("C01:length-beyond-data-accepted:"+op[1], fmt.Sprintf("Next %s at offset %d of the %d-byte source %s: declared length %d exceeds the %d remaining bytes but no eof is reported (value %s, new offset %d)",
+				op[1], before, size, trunc(hx.Hex(f.src.Bytes()), 200), declared, remaining, trunc(v, 60), f.src.Pos()))
+		}
 		// reads never move backwards nor past the end when the offset was inside the slice
-		if before <= f.src.Size() && (f.src.Pos() < before || f.src.Pos() > f.src.Size()) {
+		if inBounds && (f.src.Pos() < before || f.src.Pos() > f.src.Size()) {
 			r.Viol("C01:offset-out-of-bounds:"+op[1], fmt.Sprintf("offset moved from %d to %d on a %d-byte source", before, f.src.Pos(), f.src.Size()))
 		}
 		return fmt.Sprintf("%s eof=%s pos=%d len=%d", v, b01(eof), f.src.Pos(), f.src.Len())
@@ -393,7 +431,11 @@ func (f *codecFam) Exec(r *hx.Run, op []string) string {
 		f.src.BackUp(pu(op[1], 64))
 		return fmt.Sprintf("pos=%d", f.src.Pos())
 	case "skip":
-		eof := f.src.Skip(pu(op[1], 64))
+		before, size, n := f.src.Pos(), f.src.Size(), pu(op[1], 64)
+		eof := f.src.Skip(n)
+		if before <= size && ((n > size-before) != eof || f.src.Pos() < before || f.src.Pos() > size) {
+			r.Viol("C01:skip-beyond-data", fmt.Sprintf("Skip(%d) at offset %d of a %d-byte source: eof=%v, new offset %d", n, before, size, eof, f.src.Pos()))
+		}
 		return fmt.Sprintf("eof=%s pos=%d", b01(eof), f.src.Pos())
 	case "sload":
 		f.sdata = append([]byte{}, f.sink.Bytes()...)
@@ -419,8 +461,70 @@ func (f *codecFam) Exec(r *hx.Run, op []string) string {
 		if len(op) > 2 {
 			arg = op[2]
 		}
+		remBefore := uint64(f.sbuf.Len())
+		declared, known := uint64(0), false
+		switch op[1] {
+		case "bytes":
+			declared, known = pu(arg, 64), true
+		case "varbytes", "string":
+			if l, hdr, ok := varuintAt(f.sdata, len(f.sdata)-f.sbuf.Len()); ok {
+				declared, known = l, true
+				remBefore -= uint64(hdr)
+			}
+		}
 		v := streamRead(f.sbuf, op[1], arg)
+		if known && declared > remBefore && !strings.HasPrefix(v, "err:") {
+			r.Viol("C01:stream-length-beyond-data-accepted:"+op[1], fmt.Sprintf("serialization.Read %s: declared length %d exceeds the %d remaining bytes but %s is returned", op[1], declared, remBefore, trunc(v, 60)))
+		}
 		return fmt.Sprintf("%s rem=%d", v, f.sbuf.Len())
+	case "sbig":
+		// several large var-bytes fields written and read back-to-back with the streaming codec; every returned value is
+		// kept and compared with what was written only after all reads are done
+		type fld struct {
+			n    int
+			fill byte
+		}
+		var flds []fld
+		buf := new(bytes.Buffer)
+		for _, t := range op[1:] {
+			parts := strings.Split(t, ":")
+			if len(parts) != 2 {
+				return "bad-op"
+			}
+			n := int(pu(parts[0], 31))
+			fb := hx.UnHex(parts[1])
+			if len(fb) != 1 {
+				return "bad-op"
+			}
+			flds = append(flds, fld{n, fb[0]})
+			if err := serialization.WriteVarBytes(buf, bytes.Repeat(fb, n)); err != nil {
+				panic(err)
+			}
+		}
+		rd := bytes.NewReader(buf.Bytes())
+		got := make([][]byte, 0, len(flds))
+		for i := range flds {
+			v, err := serialization.ReadVarBytes(rd)
+			if err != nil {
+				r.Viol("C01:stream-roundtrip:varbytes", fmt.Sprintf("field %d of %d bytes is not read back: %v", i, flds[i].n, err))
+				return "FAIL:read"
+			}
+			got = append(got, v)
+		}
+		res := "ok"
+		for i, v := range got {
+			if len(v) != flds[i].n || !bytes.Equal(v, bytes.Repeat([]byte{flds[i].fill}, flds[i].n)) {
+				bad := 0
+				for bad < len(v) && bad < flds[i].n && v[bad] == flds[i].fill {
+					bad++
+				}
+				r.Viol("C01:stream-read-value-changed-later", fmt.Sprintf("field %d (%d bytes of %#02x) returned by ReadVarBytes without error no longer holds its value after the later reads (length %d, first differing byte at %d); fields: %s",
+					i, flds[i].n, flds[i].fill, len(v), bad, strings.Join(op[1:], " ")))
+				res = "FAIL:value-changed-later"
+				break
+			}
+		}
+		return fmt.Sprintf("%s k=%d rem=%d", res, len(flds), rd.Len())
 	case "rt":
 		if len(op) != 4 {
 			return "bad-op"
@@ -791,6 +895,51 @@ func (f *codecFam) Gen(r *hx.Run) {
 			r.Do("sr byte")
 			r.Nontrivial(fmt.Sprintf("bytex/%d/%d", n, have))
 		}
+	}
+	// 4b. several large fields in one stream: a value returned by an earlier read must still be intact after the later reads
+	M := 2 * 1024 * 1024
+	big := [][]int{{M, M + 1}, {M - 1, M, 3 * M}}
+	if r.Thorough() {
+		big = append(big, []int{M + 1, M - 1, M, M}, []int{5 * M, M, 2*M + 7}, []int{M, 10, M, 0, M + 3})
+	}
+	for _, sizes := range big {
+		newCase("sbig")
+		var toks []string
+		for i, n := range sizes {
+			toks = append(toks, fmt.Sprintf("%d:%02x", n, byte(0x11*(i+1))+byte(r.Rng.Intn(8))))
+		}
+		r.Do("sbig " + strings.Join(toks, " "))
+		r.Nontrivial(fmt.Sprintf("sbig/%v", sizes))
+	}
+	// 4c. declared lengths that wrap the uint64 offset arithmetic: at a non-zero offset `off`, a length n >= 2^64 - off
+	for i := 0; i < r.Pick(120, 5000); i++ {
+		newCase("wrap")
+		pre := 1 + r.Rng.Intn(12)
+		post := r.Rng.Intn(12)
+		delta := uint64(r.Rng.Intn(pre + post + 3))
+		n := -uint64(pre) + delta // 2^64 - pre + delta
+		if r.Rng.Chance(1, 4) {
+			n = ^uint64(0) - uint64(r.Rng.Intn(3))
+		}
+		lenb := varuintBytes(n, 3)
+		data := append(append(r.Rng.Bytes(pre), lenb...), r.Rng.Bytes(post)...)
+		r.Do("src " + hx.Hex(data))
+		r.Do(fmt.Sprintf("r bytes %d", pre))
+		switch r.Rng.Intn(4) {
+		case 0:
+			r.Do("r varbytes")
+		case 1:
+			r.Do("r string")
+		case 2:
+			r.Do(fmt.Sprintf("r bytes %d", n))
+		default:
+			r.Do(fmt.Sprintf("skip %d", n))
+		}
+		r.Do("r u8")
+		r.Do("ssrc " + hx.Hex(data))
+		r.Do(fmt.Sprintf("sr bytes %d", pre))
+		r.Do("sr varbytes")
+		r.Nontrivial(fmt.Sprintf("wrap/%d/%d", pre, delta))
 	}
 	// 5. safe math
 	nsafe := r.Pick(1500, 100000)
